@@ -46,6 +46,10 @@ func (els *EncryptedLeaseSet) DecryptInnerData(authCookie []byte, privateKey int
 		return nil, err
 	}
 
+	if err := validateEphemeralPublicKey(els.encryptedInnerData[:x25519.PublicKeySize]); err != nil {
+		return nil, err
+	}
+
 	derivedKey, err := deriveDecryptionKey(privKey, els.encryptedInnerData[:x25519.PublicKeySize])
 	if err != nil {
 		return nil, err
@@ -88,6 +92,19 @@ func validateEncryptedDataLength(data []byte) error {
 	if len(data) < minSize {
 		return oops.Errorf("encrypted data too short: need at least %d bytes, got %d",
 			minSize, len(data))
+	}
+	return nil
+}
+
+// validateEphemeralPublicKey rejects a non-canonical encoding of the ephemeral X25519
+// public key. X25519 (RFC 7748) ignores the most significant bit of the u-coordinate, so
+// two encodings that differ only in that bit derive the same symmetric key; because the
+// AEAD is used without associated data, nothing else binds those 32 bytes and accepting
+// both encodings would let the encrypted payload be altered without detection.
+// EncryptInnerLeaseSet2 never emits a key with that bit set.
+func validateEphemeralPublicKey(ephemeralPub []byte) error {
+	if ephemeralPub[x25519.PublicKeySize-1]&0x80 != 0 {
+		return oops.Errorf("non-canonical ephemeral public key: most significant bit is set")
 	}
 	return nil
 }
